@@ -349,7 +349,8 @@ application_call:
 
 		// only a message that was in sequence (or a sequence reset, which has set the new number) moves the expected number on:
 		// not one that was ahead of sequence and not a retransmission of an earlier number
-		if (seqnum == _next_receive_seq || msg->get_msgtype() == Common_MsgType_SEQUENCE_RESET)
+		// (nor one that was handled while the session was no longer live: it was not delivered and will be asked for again)
+		if ((seqnum == _next_receive_seq || msg->get_msgtype() == Common_MsgType_SEQUENCE_RESET) && States::is_live(_state))
 			++_next_receive_seq;
 		if (_state == States::st_resend_request_sent && _next_receive_seq > _resend_upto)
 			do_state_change(States::st_continuous); // everything that was missing has arrived
